@@ -354,6 +354,15 @@ const LINES: &[&str] = &[
     "{0} あ😀 {1} \\\n {2}",
     "{0} {1}é {2}",
     "é=1 {0} > 😀 {1}",
+    "x \\\n{0}",
+    "x \\\n {0} \\\n{1}",
+    "x\\\n {0} {1}",
+    "> \\\n{0} {1}",
+    "{0} > \\\n {1} \\\n {2}",
+    "for x in \\\n{0} \\\n {1}; do {2}; done",
+    "case \\\n{0} in {1} \\\n| {2}) x;; esac",
+    "{0} &&\\\n {1} \\\n {2}",
+    "if {0} \\\n{1}; then \\\n{2}; fi",
 ];
 
 fn render(tpl: &str, ns: &[&str]) -> String {
@@ -502,6 +511,18 @@ fn main() {
         "{0} if",
         "f() if {0}; then {1}; fi",
         "f ( ) esac {0}",
+        "{0} if {1}",
+        "{0} then fi",
+        "{0} in {1}",
+        "{0} do done",
+        "{0} ! {1}",
+        "{0} { {1} }",
+        "{0} for x",
+        "{0} case esac",
+        "x {0} if",
+        "{0} \\\n if {1} \\\n then",
+        "{0} > if then",
+        "if {0} if; then {1} fi; fi",
     ];
     let nkw = if o.thorough() { 1500 } else { 60 };
     for _ in 0..nkw {
@@ -519,7 +540,12 @@ fn main() {
             t.push(Entry { name, global: r.chance(1, 3), value });
         }
         for n in names.iter().take(2) {
-            let value = if r.chance(1, 2) { r.pick(&kw_names).to_string() } else { r.pick(&core).clone() };
+            let value = match r.below(4) {
+                0 => r.pick(&kw_names).to_string(),
+                1 => format!("{} ", r.pick(&kw_names)),
+                2 => "x ".to_string(),
+                _ => r.pick(&core).clone(),
+            };
             t.push(Entry { name: n.to_string(), global: r.chance(1, 6), value });
         }
         for l in kw_lines.iter() {
@@ -557,6 +583,33 @@ fn main() {
         }
         for l in u_lines.iter() {
             let ns: Vec<&str> = (0..4).map(|_| *r.pick(&u_names)).collect();
+            out(&t, &render(l, &ns));
+        }
+    }
+
+    // (5) nested substitutions: every value is a sequence of 1-3 names (blank- or `;`-separated, with or
+    // without a trailing blank): the recursion guard is consulted at every depth, the blank rule chains
+    let n_lines = ["{0}", "{0} {1}", "x {0}", "{0} {1} {2}", "{0}; {1}", "x {0} \\\n{1}", "{0} > {1} {2}", "if {0}; then {1}; fi"];
+    let nn = if o.thorough() { 5000 } else { 170 };
+    for _ in 0..nn {
+        let mut r = rng.fork();
+        let mut t = vec![];
+        for n in names {
+            let k = 1 + r.below(3);
+            let mut v = String::new();
+            for i in 0..k {
+                if i > 0 {
+                    v.push_str(r.pick(&[" ", " ", "  ", "; ", " \\\n"]));
+                }
+                v.push_str(r.pick(names));
+            }
+            if r.chance(1, 2) {
+                v.push(' ');
+            }
+            t.push(Entry { name: n.to_string(), global: r.chance(1, 10), value: v });
+        }
+        for l in n_lines.iter() {
+            let ns: Vec<&str> = (0..4).map(|_| *r.pick(names)).collect();
             out(&t, &render(l, &ns));
         }
     }
